@@ -328,6 +328,26 @@ def replay(f):
             rm = state_checks(":after_mid_enable")
             if rm is not None:
                 return rm[0], detail + " (after enabling " + mid + ") " + rm[1]
+        if inp.get("disable_mid"):
+            dmid = inp["disable_mid"]
+            tr.disable_features([dmid])
+            rpk = [k_ for k_ in rpk if k_ != dmid]
+            n1 = {n: dict(d) for n, d in tr.graph.nodes(data=True)}
+            e1 = {(u, v): dict(d) for u, v, d in tr.graph.edges(data=True)}
+            if ob == "C10.disabled_feature_untouched_by_undo":
+                tr.undo()
+                g2 = tr.graph
+                if dmid == "iou":
+                    for e, d in e1.items():
+                        if g2.has_edge(*e) and not close(d.get("iou"), g2.edges[e].get("iou")):
+                            return True, detail + f" edge {e}: disabled iou changed by undo {d.get('iou')} -> " \
+                                                  f"{g2.edges[e].get('iou')}"
+                else:
+                    for n, d in n1.items():
+                        if n in g2 and not close(d.get(dmid), g2.nodes[n].get(dmid)):
+                            return True, detail + f" node {n}: disabled {dmid} changed by undo {d.get(dmid)} -> " \
+                                                  f"{g2.nodes[n].get(dmid)}"
+                return False, detail
         del emitted[:]
         try:
             tr.undo()
